@@ -31,10 +31,11 @@ def run(ctx):
     produced = []      # (VCase for verification by model+impl, expectation)
     model_lines, model_meta = [], []
     _batch = []
-    for _ in range(rounds):
+    FORMS = ["key", "set-kid", "set-nokid", "callable", "key"]
+    for round_no in range(rounds):
         for alg in J.ALL_ALGS:
-            for kn in (J.ALG_KEYS[alg] if ctx.tier == "thorough" else J.ALG_KEYS[alg][:2]):
-                for kind in S.KINDS:
+            for kn_i, kn in enumerate(J.ALG_KEYS[alg] if ctx.tier == "thorough" else J.ALG_KEYS[alg][:2]):
+                for kind_i, kind in enumerate(S.KINDS):
                     payload = rng.choice(J.PAYLOADS)
                     if kind == "j7797":
                         try:
@@ -42,7 +43,8 @@ def run(ctx):
                         except UnicodeDecodeError:
                             payload = b"text payload"
                     prot, unprot = S.headers_for(rng, alg, kind)
-                    keyform = rng.choice(["key", "key", "set-kid", "set-nokid", "callable"])
+                    # first round: every (algorithm, key form) pair occurs - the form rotates with the serialization; later rounds: random
+                    keyform = FORMS[(kind_i + kn_i) % 5] if round_no == 0 else rng.choice(["key", "key", "set-kid", "set-nokid", "callable"])
                     sk = K.key(kn, private=True)
                     pk = K.key(kn, private=False)
                     other = K.key("oct16" if kn != "oct16" else "oct32", private=True, kid="other")
